@@ -12,7 +12,7 @@
      Layer(k = index from the bottom, s = type, a = max_attempts | count | timeout, xs = <<fn, efn, poll mode>>)
        fn:  0 absent, 1 tags, 2 raises, 4 returns a non-future (flat_map), 5 returns a future resolved later,
             6 returns None (map: a value like any other, term <<-5>>)
-       efn: 0 absent, 1 tags, 2 raises a new exception, 3 re-raises the same exception,
+       efn: 0 absent, 1 tags, 2 raises a new exception, 3 re-raises the same exception, 5 (flat_map) returns a non-future,
             4 (flat_map) returns a future that already failed with an exception of its own, 6 returns None
      Sub(f, xs = script: 0 value, 1 exception in the retry policy's exception_base, 2 other exception)
      Args(f, xs = ids of the positional arguments, a = number of keyword arguments)
@@ -82,7 +82,9 @@ Run(st, f, level, n) ==
                             IF r.ok THEN (IF fn \in {1, 5} THEN Ok(<<1000 + i>> \o r.term)
                                           ELSE IF fn = 2 THEN Fail(9, -1, i, 2)
                                           ELSE IF fn = 4 THEN Fail(9, -1, i, 1) ELSE r)
-                            ELSE (IF efn = 4 THEN Fail(9, -1, i, 2) ELSE r)   \* error_fn returned an already failed future
+                            ELSE (IF efn = 4 THEN Fail(9, -1, i, 2)          \* error_fn returned an already failed future
+                                  ELSE IF efn = 5 THEN Fail(9, -1, i, 1)     \* error_fn returned something that is no future
+                                  ELSE r)
                        [] t = "poll" -> IF r.ok THEN Ok(<<3000 + i>> \o r.term) ELSE r
                        [] OTHER -> r,      \* throttle, timeout (large), cancel_on_shutdown: identities
                      below[2]>>
